@@ -5,16 +5,18 @@
 (* with abscissae replaced by their ranks among all abscissae of the       *)
 (* execution -- positions on an ordered grid, as in Ridder.tla.            *)
 (*                                                                         *)
-(* S (verdict): every evaluation inside the bracket; the first two are the *)
-(* ends; an end that is a zero is returned as is without further           *)
-(* evaluation; otherwise the returned point is inside the bracket and the  *)
+(* S (verdict): every evaluation inside the bracket, in whatever order and *)
+(* number (the statement fixes neither); an end that is a zero is returned *)
+(* as is; otherwise the returned point is inside the bracket and the       *)
 (* function changes sign or vanishes within the requested accuracy of it   *)
 (* (chg: the function's own signs on the window x +- acc; dq: distance to  *)
 (* the nearest planted root in units of acc); both argument orders return  *)
 (* the same bits; linear functions are solved to rounding; a bracket       *)
 (* without sign change or with NaN ends exits with status and diagnostic.  *)
 (*                                                                         *)
-(* A (CHECK_A = TRUE, reported as model drift only): the evaluations       *)
+(* A (CHECK_A = TRUE, reported as model drift only): the first two         *)
+(* evaluations are the ends, lower first; with a zero end nothing else is  *)
+(* evaluated; the evaluations                                              *)
 (* follow the Ridder machine -- x3 strictly inside the bracket, x4 between *)
 (* x3 and the end on the root's side, re-bracketing by the code's cases,   *)
 (* optional probe steps of the "verified" stopping rule.                   *)
@@ -32,10 +34,15 @@ TCall == /\ Ev("Call") /\ ph \in {"idle"}
          /\ LET ev == Log[l] IN
             /\ ev.rlo = 0 /\ ev.rhi = ev.n - 1                 \* the ends are the extreme abscissae of the execution: nothing was evaluated outside
             /\ n' = ev.n /\ rlo' = ev.rlo /\ rhi' = ev.rhi /\ sLo' = ev.sLo /\ sHi' = ev.sHi
-         /\ ph' = "ends" /\ k' = 0 /\ e4' = 0 /\ UNCHANGED <<x1, x2, s1, s2, x3, s3>>
+         /\ ph' = (IF CHECK_A THEN "ends" ELSE "run") /\ k' = 0 /\ e4' = 0 /\ UNCHANGED <<x1, x2, s1, s2, x3, s3>>
+
+\* S level: an evaluation, anywhere inside the bracket, at any time
+TEvalS == /\ ~CHECK_A /\ Ev("Eval") /\ ph = "run"
+          /\ Log[l].inb /\ Log[l].rk \in 0..(n - 1)
+          /\ k' = k + 1 /\ UNCHANGED <<ph, n, rlo, rhi, sLo, sHi, x1, x2, s1, s2, x3, s3, e4>>
 
 \* the k-th evaluation
-TEval == /\ Ev("Eval") /\ ph \in {"ends", "mid", "new", "retonly"}
+TEval == /\ CHECK_A /\ Ev("Eval") /\ ph \in {"ends", "mid", "new", "retonly"}
          /\ LET ev == Log[l] IN
             /\ ev.inb /\ ev.rk \in 0..(n - 1)                    \* S: inside the bracket
             /\ CASE ph = "ends" /\ k = 0 -> ev.rk = rlo /\ ev.sg = sLo /\ k' = 1 /\ ph' = "ends" /\ UNCHANGED <<x1, x2, s1, s2, x3, s3, e4>>
@@ -67,7 +74,7 @@ TEval == /\ Ev("Eval") /\ ph \in {"ends", "mid", "new", "retonly"}
                  [] ph = "retonly" -> FALSE
          /\ UNCHANGED <<n, rlo, rhi, sLo, sHi>>
 
-TReturn == /\ Ev("Return") /\ ph \in {"ends", "mid", "new", "retonly"}
+TReturn == /\ Ev("Return") /\ ph \in {"ends", "mid", "new", "retonly", "run"}
            /\ (CHECK_A => \/ ph \in {"ends", "retonly"}
                            \/ (ph = "mid" /\ e4 # 0)                    \* bracket no wider than the accuracy (or the iteration cap)
                            \/ (ph = "new" /\ s3 = 0))                   \* the midpoint is an exact zero
@@ -75,9 +82,9 @@ TReturn == /\ Ev("Return") /\ ph \in {"ends", "mid", "new", "retonly"}
               /\ ev.inb /\ ev.rk \in 0..(n - 1)                                      \* returned point inside the bracket
               /\ ev.same                                                             \* whichever order the ends were given in
               /\ IF sLo * sHi >= 0
-                 THEN /\ ph = "ends" /\ k = 2                                        \* only the two ends were evaluated
+                 THEN /\ (CHECK_A => ph = "ends" /\ k = 2)                           \* A: only the two ends were evaluated
                       /\ (ev.retlo /\ sLo = 0) \/ (ev.rethi /\ sHi = 0)             \* a zero end is returned as is
-                 ELSE /\ ph \in {"mid", "new", "retonly"}
+                 ELSE /\ ph \in {"mid", "new", "retonly", "run"}
                       /\ ev.chg \/ (ev.dq >= 0 /\ ev.dq <= 1)                         \* sign change or zero within acc of the returned point
                       /\ (ev.linq >= 0 => ev.linq <= 1)                               \* linear functions are solved exactly (to rounding)
            /\ ph' = "idle" /\ UNCHANGED <<n, rlo, rhi, sLo, sHi, k, x1, x2, s1, s2, x3, s3, e4>>
@@ -87,7 +94,7 @@ TReject == /\ Ev("Reject") /\ ph = "idle"
            /\ LET ev == Log[l] IN ~ev.returned /\ ev.status # 0 /\ ev.diag /\ ~ev.mem
            /\ UNCHANGED <<ph, n, rlo, rhi, sLo, sHi, k, x1, x2, s1, s2, x3, s3, e4>>
 \* "Died" (the library exited or crashed on a bracket with a sign change) is not an action: such a trace is rejected
-Next == TCall \/ TEval \/ TReturn \/ TReject
+Next == TCall \/ TEval \/ TEvalS \/ TReturn \/ TReject
 Spec == Init /\ [][Next]_vars
 TraceAccepted == TLCGet("stats").diameter - 1 = Len(Log)
 =============================================================================
